@@ -10,9 +10,9 @@ CFG = dict(
                "(identified_owner_succeeds), base-once sequences keep the bias (obj_addr_seq_meets_spec), the evaluated checkers accept the "
                "model on every input (obj_addr_meets_spec, addr_info_meets_spec); nm lookup over any sorted table returns a symbol with the "
                "greatest start not above the address, data symbols only within their size (addr_info_greatest_le, addr_info_none_reason), "
-               "binary search fuel suffices; all outside the known-finding class F23 (refuted twin proved). Model tied to the code by ~4,800 "
+               "binary search fuel suffices; addr2Liner.addrInfo's nm fix-up consults the runtime-keyed table (link address + base) with the runtime address and replaces only the non-inlined frame's name (a2l_fixup_meets_spec); all outside the known-finding class F23 (refuted twin proved). Model tied to the code by ~4,800 "
                "differential cases per quick run (GetBase incl. kernel heuristics, ProgramHeadersForMapping, HeaderForFileOffset, "
-               "computeBase/ObjAddr through a fake elfOpen, parseAddr2LinerNM+addrInfo).",
+               "computeBase/ObjAddr through a fake elfOpen, parseAddr2LinerNM+addrInfo, addr2Liner.addrInfo with a scripted pipe and an attached nm table).",
     level_note="Kernel heuristics of GetBase/kernelBase are corresponded only (the statement does not cover kernel images). Addresses in the "
                "page padding a mapping shares with a neighbouring segment's file bytes are outside the theorem (own_bytes_hypothesis_needed "
                "shows the hypothesis is forced). The loader model (S_Elf.image/pieceb) is the specification side; the thorough tier validates "
@@ -24,7 +24,7 @@ CFG = dict(
          "neighbour-file-range edges; plus unit cases for GetBase (kernel thresholds, empirical kernel tuples), ProgramHeadersForMapping "
          "(offsets/limits at every comparison threshold, wrap-around headers), HeaderForFileOffset, objaddr with arbitrary mappings "
          "(error paths, kernel paths, nil mapping, open failure, ET_REL/ET_NONE, no PT_LOAD), nm tables (ties, zero/huge sizes, data and "
-         "code types, junk lines, wrap-around bases). distinct = sha256 of the input term; non-trivial = a mapping, >= 1 address and >= 1 "
+         "code types, junk lines, wrap-around bases). a2lnm cases (contiguous text tables x base {0, small, pages, below text size, large} x runtime address x truncated / full / unrelated addr2line names x inlined frames). distinct = sha256 of the input term; non-trivial = a mapping, >= 1 address and >= 1 "
          "PT_LOAD (objaddr), a segment given (getbase), >= 2 headers (phm, hffo), >= 2 symbols and >= 1 address (nm)",
     spec_what="an address among the owning segment's own bytes in a loader-made mapping was translated to something other than "
               "runtime address - load bias (or an error was returned although the owner is the only header containing its file offset), "
